@@ -1018,6 +1018,8 @@ impl ConstElem for Value {
       ValueKind::R64 => Value::R64(Ref::new(<R64 as ConstElem>::from_le(payload))),
       #[cfg(feature = "complex")]
       ValueKind::C64 => Value::C64(Ref::new(<C64 as ConstElem>::from_le(payload))),
+      #[cfg(feature = "set")]
+      ValueKind::Set(_, _) => Value::Set(Ref::new(<MechSet as ConstElem>::from_le(payload))),
       x => unimplemented!("from_le not implemented for this ValueKind variant: {:?}", x),
     }
   }
@@ -1154,7 +1156,10 @@ impl ConstElem for ValueKind {
       #[cfg(feature = "matrix")]
       21 => {
         let elem_vk = ValueKind::from_le(&bytes[cursor.position() as usize..]);
-        cursor.set_position(cursor.position() + 1); // advance past elem_vk tag
+        // advance past the element kind, which may itself be a compound kind
+        let mut buf = Vec::new();
+        elem_vk.write_le(&mut buf);
+        cursor.set_position(cursor.position() + buf.len() as u64);
         let dim_count = cursor.read_u32::<LittleEndian>().expect("read matrix dim count") as usize;
         let mut dims = Vec::with_capacity(dim_count);
         for _ in 0..dim_count {
@@ -1189,7 +1194,9 @@ impl ConstElem for ValueKind {
       #[cfg(feature = "set")]
       29 => {
         let elem_vk = ValueKind::from_le(&bytes[cursor.position() as usize..]);
-        cursor.set_position(cursor.position() + 1);
+        let mut buf = Vec::new();
+        elem_vk.write_le(&mut buf);
+        cursor.set_position(cursor.position() + buf.len() as u64);
         let size_flag = cursor.read_u8().expect("read set size flag");
         let opt_size = if size_flag != 0 {
             Some(cursor.read_u32::<LittleEndian>().expect("read set size") as usize)
